@@ -88,6 +88,7 @@ def run(ctx, cfg):
         before.insert(rng.randrange(len(before) + 1), ["seesaw", rng.choice(["INPUT(1) = w[1,2]\n", "seesaw[", "INPUT(1) = w[1,2]\r\n"])])
         extra.append({"kind": "history", "text": rng.choice([crpool, tabpool, kwpool, pool][j % 4]), "before": before})
     extra += reuse_cases(cfg, rng, S, pool + other, quick)
+    extra += handle_cases(rng, pool + other, quick)
     out = run_oracle(ORACLE, {"cases": extra})
     spec += out["failures"]
     ctx.cov["oracle_checked"] = out["checked"]
@@ -173,6 +174,19 @@ def reuse_cases(cfg, rng, S, pool, quick):
         else:
             texts = [rng.choice(pool) for _ in range(rng.randint(2, 3))] + [whole]
         out.append({"kind": "reuse", "texts": texts, "edit": EDITS[j % len(EDITS)], "via": "path"})
+    return out
+
+
+HANDLE_MODES = ["with", "drop", "keep", "stringio", "rewind", "mixed"]
+
+
+def handle_cases(rng, pool, quick):
+    """files parse like their content also when several files are read one after the other through open handles (the batch
+    loop): 2..6 accepted and rejected texts, each in its own file, every way of holding / releasing the handle"""
+    out = []
+    for j in range(36 if quick else 360):
+        texts = [rng.choice(pool) for _ in range(rng.randint(2, 6))]
+        out.append({"kind": "handles", "texts": texts, "mode": HANDLE_MODES[j % len(HANDLE_MODES)]})
     return out
 
 
